@@ -10,7 +10,7 @@
   parties outside the tier.  "The distribution of `h` seats is adequate" = the evaluator answers for `h` seats
   and gives every tier key at least its floor (`Adequate`).
 -/
-import VotelibProofs.Lemmas.OverhangTerm
+import VotelibProofs.Lemmas.OverhangCont
 import Mathlib.Algebra.Order.Archimedean.Basic
 namespace VL.C15
 open VL VL.OH
@@ -298,5 +298,138 @@ theorem level_terminates (div : Nat → Rat) (hd : (∀ k, 0 < div k) ∧ Strict
   rw [if_neg (by omega)]
   simp only [hH]
   rfl
+
+/-! ### the final totals are the proportional distribution of the enlarged house -/
+
+theorem haEval_ok (div : Nat → Rat) (votes : Votes) (n : Nat) (prev : Seats) (r : Dist)
+    (h : haEval div votes n prev [] = .ok r) :
+    r = normDist (haResult (cfgP div votes n prev)) ∧ (haInit (cfgP div votes n prev)).pool ≠ [] := by
+  unfold haEval highestAverages at h
+  split at h
+  · simp [Except.map] at h
+  · rename_i hpool
+    simp only [Except.map, Except.ok.injEq] at h
+    exact ⟨h.symm, hpool⟩
+
+theorem distHas_lowestAllowed (prop : Dist) (prev : Seats) (k : Key) :
+    distHas (lowestAllowed prop prev) k = distHas prop k := by
+  unfold distHas lowestAllowed
+  rw [List.any_map]
+  rfl
+
+/-- **Final totals = proportional distribution of the enlarged house.**  Highest averages (strictly increasing
+    divisors, positive votes) as both the levelling evaluator and the distributing evaluator; all direct seats belong
+    to parties of the proportional tier; the proportional distribution `full` of the enlarged house `n + adj` reports
+    no tie.  Then direct seats plus the seats awarded by `AdjustedSeatCount.evaluate` are exactly `full`, party by
+    party, and the awarded result contains no `Tie` either. -/
+theorem level_final_is_proportional (div : Nat → Rat) (hd : (∀ k, 0 < div k) ∧ StrictMono div) (votes : Votes)
+    (hv : ∀ p ∈ votes, 0 < p.2) (hn : (keys votes).Nodup) (fuel n : Nat) (prev : Seats)
+    (hpn : (prev.map (·.1)).Nodup) (adj : Nat) (res prop full : Dist)
+    (hc : levelOverhang (haEval div) fuel votes n prev [] = .ok adj)
+    (hr : adjustedSeatCount (levelOverhang (haEval div) fuel) (haEval div) votes n prev [] = .ok res)
+    (hp : haEval div votes n [] [] = .ok prop)
+    (htier : ∀ p ∈ prev, 0 < p.2 → distHas prop (.cand p.1) = true)
+    (hfull : haEval div votes (n + adj) [] [] = .ok full)
+    (hnotie : ∀ p ∈ full, ∃ c, p.1 = .cand c) :
+    (∀ c, natLookup prev c 0 + distGet res (.cand c) = distGet full (.cand c)) ∧
+    (∀ p ∈ res, ∃ c, p.1 = .cand c) := by
+  have hv0 : ∀ p ∈ votes, 0 ≤ p.2 := fun p hp' => le_of_lt (hv p hp')
+  obtain ⟨prop', hp', _, _, hcases⟩ := level_is_least (haEval div) fuel votes n prev [] adj hc
+  rw [hp] at hp'
+  have hpe : prop' = prop := (Except.ok.inj hp').symm
+  subst hpe
+  have hpnd : (prop'.map (·.1)).Nodup := haEval_nodup div votes n [] [] prop' hp
+  -- no direct seats outside the tier
+  have hdrop : nonpropDrop (lowestAllowed prop' prev) prev = 0 := by
+    rw [nonpropDrop_eq, List.sum_eq_zero_iff]
+    intro x hx
+    obtain ⟨p, hpm, rfl⟩ := List.mem_map.mp hx
+    rw [distHas_lowestAllowed]
+    by_cases hz : 0 < p.2
+    · rw [htier p hpm hz]; rfl
+    · have : p.2 = 0 := by omega
+      split <;> simp [this]
+  rw [hdrop] at hcases
+  -- the distribution of the enlarged house meets the floors
+  have hmeets : MeetsFloors full (lowestAllowed prop' prev) := by
+    rcases hcases with ⟨h0, hm⟩ | ⟨_, _, ⟨r, hr', hm⟩, _⟩
+    · subst h0
+      rw [Nat.add_zero, hp] at hfull
+      rw [← Except.ok.inj hfull]; exact hm
+    · rw [Nat.sub_zero, hfull] at hr'
+      rw [Except.ok.inj hr']; exact hm
+  obtain ⟨hfe, hfpool⟩ := haEval_ok div votes (n + adj) [] full hfull
+  have hok0 : CfgOK (cfgH div votes (n + adj)) := C01.cfgOK_of_divisor _ hd hv0 hn
+  have hNpos : 0 < n + adj := by
+    obtain ⟨p, hpp⟩ := List.exists_mem_of_ne_nil _ hfpool
+    obtain ⟨q, _, _, hlt, _⟩ := (haInit_pool_mem _ p).mp hpp
+    have : (cfgP div votes (n + adj) []).capOf q.1 = n + adj := rfl
+    omega
+  have hle : ∀ c, natLookup prev c 0 ≤ haSeats (cfgH div votes (n + adj)) c := by
+    intro c
+    by_cases hz : 0 < natLookup prev c 0
+    · -- c has direct seats, so it is a tier party and its floor is met
+      unfold natLookup at hz ⊢
+      cases hf : prev.find? (fun q => q.1 = c) with
+      | none => simp
+      | some q =>
+        rw [hf] at hz
+        simp only at hz ⊢
+        have hq := List.mem_of_find?_eq_some hf
+        have hqc := List.find?_some hf
+        simp only [decide_eq_true_eq] at hqc
+        have hin := htier q hq hz
+        rw [distHas_iff, hqc] at hin
+        obtain ⟨e, he, hek⟩ := List.mem_map.mp hin
+        have hm := hmeets (e.1, max (prevGetKey prev e.1) e.2)
+          (by unfold lowestAllowed; exact List.mem_map.mpr ⟨e, he, rfl⟩)
+        simp only at hm
+        rw [hek] at hm
+        have hpk : prevGetKey prev (.cand c) = q.2 := by
+          simp only [prevGetKey]; unfold natLookup; rw [hf]
+        rw [hpk, hfe] at hm
+        have := distGet_haResult (cfgH div votes (n + adj)) hok0 c
+        have hcfg : cfgP div votes (n + adj) [] = cfgH div votes (n + adj) := rfl
+        rw [hcfg] at hm
+        omega
+    · omega
+  have htie : (haRun (cfgH div votes (n + adj))).tie = none := by
+    cases ht : (haRun (cfgH div votes (n + adj))).tie with
+    | none => rfl
+    | some Tm =>
+      exfalso
+      obtain ⟨T, m⟩ := Tm
+      obtain ⟨hmpos, _⟩ := C01.ha_tie _ hok0 T m ht
+      have hmem : (Key.tie T, m) ∈ haResult (cfgH div votes (n + adj)) :=
+        (C01.haResult_tie _ T m).mpr ⟨ht, hmpos⟩
+      have hmem' : (normKey (Key.tie T), m) ∈ full := by
+        rw [hfe]
+        exact List.mem_map.mpr ⟨(Key.tie T, m), hmem, rfl⟩
+      obtain ⟨c, hcc⟩ := hnotie _ hmem'
+      simp [normKey] at hcc
+  -- the distributing evaluation
+  unfold adjustedSeatCount at hr
+  rw [hc] at hr
+  simp only [bind, Except.bind] at hr
+  obtain ⟨hre, hrpool⟩ := haEval_ok div votes (n + adj) prev res hr
+  obtain ⟨hcont, htp⟩ := ha_continue div hd votes hv hn (n + adj) hNpos prev hpn hrpool hle htie
+  have hokp : CfgOK (cfgP div votes (n + adj) prev) := C01.cfgOK_of_divisor _ hd hv0 hn
+  refine ⟨fun c => ?_, ?_⟩
+  · rw [hre, hfe, distGet_haResult _ hokp]
+    have hcfg : cfgP div votes (n + adj) [] = cfgH div votes (n + adj) := rfl
+    rw [hcfg, distGet_haResult _ hok0]
+    exact hcont c
+  · intro p hpr
+    rw [hre] at hpr
+    obtain ⟨e, he, rfl⟩ := List.mem_map.mp hpr
+    rw [haResult_split, List.mem_append] at he
+    rcases he with he | he
+    · have : e.1 ∈ (haCandPart (cfgP div votes (n + adj) prev)).map (·.1) := List.mem_map.mpr ⟨e, he, rfl⟩
+      rw [haCandPart_keys] at this
+      obtain ⟨c, _, hce⟩ := List.mem_map.mp this
+      exact ⟨c, by simp only; rw [← hce]; rfl⟩
+    · unfold haTiePart at he
+      rw [htp] at he
+      simp at he
 
 end VL.C15
